@@ -183,23 +183,26 @@ Proof.
       destruct (s_shape _), (s_pos _); unfold set_cursor_changed, set_cursor_moved; cbn [c_fbpending]; rewrite F0; exact P2.
 Qed.
 
-Theorem run_resize_inside : forall g evs st,
-  rinv st ->
-  (forall st' ev, ev_ok st' ev -> True) ->
-  (fix ok (st : rstate) (evs : list revent) : Prop :=
-     match evs with
-     | [] => True
-     | ev :: t => ev_ok st ev -> (match ev with EvUpdate sn => update_ok g st sn | _ => True end) /\ rinv (rstep g st ev) /\ ok (rstep g st ev) t
-     end) st evs.
+(* every admissible event of the run keeps the invariant, and every update is geometrically right *)
+Fixpoint run_ok (g : cfg) (st : rstate) (evs : list revent) : Prop :=
+  match evs with
+  | [] => True
+  | ev :: t =>
+      ev_ok st ev ->
+      (match ev with EvUpdate sn => update_ok g st sn | EvResize _ _ => True end) /\
+      rinv (rstep g st ev) /\ run_ok g (rstep g st ev) t
+  end.
+
+Theorem run_resize_inside : forall g evs st, rinv st -> run_ok g st evs.
 Proof.
-  intros g evs. induction evs as [|ev t IH]; intros st Hi _; [exact I|].
-  intros Hev. destruct Hi as (HW & HH & Hn & Hp).
+  intros g evs. induction evs as [|ev t IH]; intros st Hi; [exact I|].
+  cbn [run_ok]. intros Hev. destruct Hi as (HW & HH & Hn & Hp).
   destruct ev as [W H|sn].
   - (* resize: the pending flag is raised because the client has NewFBSize *)
     cbn [ev_ok] in Hev. split; [exact I|].
     assert (Hi' : rinv (rstep g st (EvResize W H))).
     { unfold rinv, rstep. cbn [r_W r_H r_caps r_aw r_ah]. unfold on_newfb. rewrite Hn. cbn. repeat split; try lia; try (left; reflexivity). }
-    split; [exact Hi'|]. apply IH; [exact Hi'|auto].
+    split; [exact Hi'|]. apply IH; exact Hi'.
   - cbn [ev_ok] in Hev. destruct Hev as (EW & EH & Wm & Wq & Wc & Im & Ic).
     destruct (prelude_flags g (r_caps st) sn) as (P1 & P2 & P3).
     destruct (model_update_newfb_flags g (r_caps st) sn) as (F1 & F2 & F3).
@@ -209,7 +212,7 @@ Proof.
         repeat split; try lia; try (rewrite F1; exact Hn);
         try (right; split; reflexivity);
         try (rewrite (F2 eq_refl); destruct Hp as [Hp|Hp]; [rewrite Hn, Hp in E; discriminate E|right; exact Hp]). }
-    split; [|split; [exact Hi'|apply IH; [exact Hi'|auto]]].
+    split; [|split; [exact Hi'|apply IH; exact Hi']].
     unfold update_ok. cbv zeta. rewrite P1, P2.
     destruct (c_newfbsize (r_caps st) && c_fbpending (r_caps st)) eqn:E.
     + unfold model_update, model_update_core. rewrite P1, P2, E. unfold newfb_update. rewrite P3.
@@ -221,4 +224,25 @@ Proof.
       destruct Hp as [Hp|[Ha1 Ha2]]; [rewrite Hn, Hp in E; discriminate E|].
       rewrite Ha1, Ha2, <- EW, <- EH.
       apply plan_inside_mod; try assumption; lia.
+Qed.
+
+(* a concrete run: client with NewFBSize, 20x10 screen, resize to 24x12, the size message, then pixels *)
+Definition ex_run_state : rstate :=
+  mkR (fst (set_encodings (mkCfg false false false false true true true true) caps_init [enc_Raw; enc_NewFBSize])) 20 10 20 10.
+Definition ex_run_snap : snap :=
+  mkSnap (rgn_create_rect 0 0 24 12) (rgn_create_rect 0 0 20 10) rgn_empty 0 0 0 0 0 0 None 0 24 12 50 48 48 1 32 0 0.
+
+Lemma ex_run :
+  rinv ex_run_state /\ ev_ok ex_run_state (EvResize 24 12) /\
+  ev_ok (rstep (mkCfg false false false false true true true true) ex_run_state (EvResize 24 12)) (EvUpdate ex_run_snap) /\
+  snd (model_update (mkCfg false false false false true true true true)
+         (r_caps (rstep (mkCfg false false false false true true true true) ex_run_state (EvResize 24 12))) ex_run_snap)
+  = USent 1 [PH (0, 0, 24, 12, enc_NewFBSize)] false false.
+Proof.
+  split; [unfold rinv; cbn; repeat split; try lia; right; split; reflexivity|].
+  split; [cbn; lia|]. split; [|reflexivity].
+  cbn [ev_ok rstep r_W r_H ex_run_snap sn_fbw sn_fbh sn_mod sn_req sn_copy].
+  split; [reflexivity|]. split; [reflexivity|].
+  split; [apply create_rect_wf; lia|]. split; [apply create_rect_wf; lia|]. split; [apply WF_empty|].
+  split; intros x y Hm; [rewrite create_rect_mem in Hm; unfold rect_mem in Hm; lia|discriminate Hm].
 Qed.
